@@ -303,10 +303,4 @@ theorem normList_id (o : Option (List Mod)) (h : okList o = true) : normList o =
       simp only [normList]
       rw [map_normMult_id _ h]
 
-theorem normCharge_id (c : Option Int) (h : c ≠ some 0) : normCharge c = c := by
-  unfold normCharge
-  split
-  · exact absurd rfl h
-  · rfl
-
 end Pept
